@@ -114,35 +114,40 @@ structure Acc where
   dlg : RMap
 deriving Repr, DecidableEq, Inhabited
 
+/-- the share a withdraw record draws on: the delegator's entry of `dlgPenalty` (nil if there is none), or the
+validator's own share for its own withdrawals (`Delegator == common.Address{}`) -/
+def wrest (a : Acc) (r : WRec) : Option Int :=
+  if r.delegator ≠ 0 then rmGet a.dlg r.delegator else some a.self
+
+/-- what the first loop takes from record `r` given the counters (0 = the record is skipped) -/
+def wamount (va : Addr) (r : WRec) (a : Acc) : Int :=
+  if r.validator ≠ va ∨ r.finished ≠ 0 then 0
+  else
+    match wrest a r with
+    | none => 0
+    | some rest =>
+      if rest ≤ 0 then 0
+      else if minTake r.final rest > 0 then minTake r.final rest else 0
+
+/-- `updateCounter(fromWithdraw, nil, nil, nil)` and `rest.Sub(rest, fromWithdraw)` (the map entry is the same pointer) -/
+def wtake (r : WRec) (a : Acc) (f : Int) : Acc :=
+  { pen := a.pen - f, total := a.total + f,
+    self := if r.delegator ≠ 0 then a.self else a.self - f,
+    dlg := if r.delegator ≠ 0 then
+             (match rmGet a.dlg r.delegator with
+              | some rest => rmSet a.dlg r.delegator (rest - f)
+              | none => a.dlg)
+           else a.dlg }
+
 /-- first loop: take from the unfinished withdraw records of this validator, in queue order -/
 def wloop (va : Addr) : List WRec → Acc → List WRec × Acc
   | [], a => ([], a)
   | r :: rs, a =>
     if a.pen ≤ 0 then (r :: rs, a)
-    else if r.validator ≠ va ∨ r.finished ≠ 0 then
-      let (rs', a') := wloop va rs a
-      (r :: rs', a')
-    else
-      let rest? : Option Int := if r.delegator ≠ 0 then rmGet a.dlg r.delegator else some a.self
-      match rest? with
-      | none =>
-        let (rs', a') := wloop va rs a
-        (r :: rs', a')
-      | some rest =>
-        if rest ≤ 0 then
-          let (rs', a') := wloop va rs a
-          (r :: rs', a')
-        else
-          let f := minTake r.final rest
-          if f > 0 then
-            let a1 : Acc := { pen := a.pen - f, total := a.total + f,
-                              self := if r.delegator ≠ 0 then a.self else a.self - f,
-                              dlg := if r.delegator ≠ 0 then rmSet a.dlg r.delegator (rest - f) else a.dlg }
-            let (rs', a') := wloop va rs a1
-            ({ r with final := r.final - f } :: rs', a')
-          else
-            let (rs', a') := wloop va rs a
-            (r :: rs', a')
+    else if wamount va r a > 0 then
+      ({ r with final := r.final - wamount va r a } :: (wloop va rs (wtake r a (wamount va r a))).1,
+       (wloop va rs (wtake r a (wamount va r a))).2)
+    else (r :: (wloop va rs a).1, (wloop va rs a).2)
 
 /-- counters of the deposit phase: remaining amount, total, validator Token and Stake -/
 structure DAcc where
@@ -159,30 +164,26 @@ def updCounter (unit : Int) (f srcToken srcStake : Int) (c : DAcc) : Int × Int 
   let delta := srcStake - newStake
   (newToken, newStake, { pen := c.pen - f, total := c.total + f, vtoken := c.vtoken - f, vstake := c.vstake - delta })
 
+/-- what the third loop takes from delegation `d` (0 = skipped) -/
+def damount (dlg : RMap) (d : Deleg) : Int :=
+  match rmGet dlg d.delegator with
+  | none => 0
+  | some rest =>
+    if rest ≤ 0 then 0
+    else if minTake d.token rest > 0 then minTake d.token rest else 0
+
 /-- third loop: delegations in order; an updated delegation that became empty is removed
 (`UpdateDelegationFrom` on a sorted, duplicate-free list). -/
 def dloop (unit : Int) (dlg : RMap) : List Deleg → DAcc → List Deleg × DAcc
   | [], c => ([], c)
   | d :: ds, c =>
     if c.pen ≤ 0 then (d :: ds, c)
-    else
-      match rmGet dlg d.delegator with
-      | none =>
-        let (ds', c') := dloop unit dlg ds c
-        (d :: ds', c')
-      | some rest =>
-        if rest ≤ 0 then
-          let (ds', c') := dloop unit dlg ds c
-          (d :: ds', c')
-        else
-          let f := minTake d.token rest
-          if f > 0 then
-            let (nt, ns, c1) := updCounter unit f d.token d.stake c
-            let (ds', c') := dloop unit dlg ds c1
-            if ns = 0 ∧ nt = 0 then (ds', c') else ({ d with token := nt, stake := ns } :: ds', c')
-          else
-            let (ds', c') := dloop unit dlg ds c
-            (d :: ds', c')
+    else if damount dlg d > 0 then
+      let u := updCounter unit (damount dlg d) d.token d.stake c
+      (if u.2.1 = 0 ∧ u.1 = 0 then (dloop unit dlg ds u.2.2).1
+       else { d with token := u.1, stake := u.2.1 } :: (dloop unit dlg ds u.2.2).1,
+       (dloop unit dlg ds u.2.2).2)
+    else (d :: (dloop unit dlg ds c).1, (dloop unit dlg ds c).2)
 
 structure TPResult where
   newVal : Val
